@@ -82,7 +82,8 @@ def main(job_path):
             model.enable_call_log()
         mon.model = model
         M.install(mon, job.get("monitors", []))
-        if job.get("fault"):
+        interleaved = job.get("prelude") == "interleaved"
+        if job.get("fault") and not interleaved:
             from . import faults
 
             faults.install(mon, job["fault"])
@@ -113,8 +114,9 @@ def main(job_path):
             pre = FlowSampler(
                 pre_model, output=job["output"].rstrip("/") + "_prelude",
                 importance_nested_sampler=pre_ins, resume=False, **pre_kw)
-            pre.run(plot=False)
-            pre_model.close_pool()
+            if not interleaved:
+                pre.run(plot=False)
+                pre_model.close_pool()
             mon.classes.add("after-another-run-in-the-process")
         phase = "construct"
         # (harness clock, used only for the one-sided physical bound on the
@@ -146,6 +148,17 @@ def main(job_path):
                 **kwargs,
                 **extra_kw,
             )
+        if interleaved:
+            # both samplers were created up front; the other one runs (to
+            # completion) first, then the run under test starts
+            phase = "prelude"
+            pre.run(plot=False)
+            pre_model.close_pool()
+            mon.classes.add("two-samplers-created-up-front")
+            if job.get("fault"):
+                from . import faults
+
+                faults.install(mon, job["fault"])
         mon.fs = fs
         mon.after_construct(fs)
         phase = "run"
